@@ -387,6 +387,13 @@ impl SimFs {
         Ok(self.stat_ino(self.lookup(path)?))
     }
 
+    /// Like `stat`, but a final symbolic link is not followed.
+    pub fn lstat(&self, path: &str) -> Result<Stat, Errno> {
+        let r = self.resolve(path)?;
+        let ino = r.ino.ok_or(libc::ENOENT)?;
+        Ok(self.stat_ino(ino))
+    }
+
     fn alloc(&mut self, node: Node, mode: u32, parent: Ino) -> Ino {
         let ino = self.next_ino;
         self.next_ino += 1;
